@@ -2,7 +2,7 @@
 (* The live aircraft table (streamer/decode.py Decode.process_raw) as a pure *)
 (* function on abstract messages, plus the predicates of property C17.       *)
 (* Time is counted in half seconds (t = 2 * seconds); positions as in CPR.   *)
-EXTENDS CPR, TLC
+EXTENDS CPR, TLC, TrackerTime
 
 \* abstract message: [addr, t, cls, oe, yz, xz]; cls in {"air", "surf", "ident", "vel", "other", "commb"}
 NoSlot == [has |-> FALSE, t |-> 0, yz |-> 0, xz |-> 0, cls |-> ""]
@@ -29,7 +29,7 @@ PositionFor(ent, m, rx) ==
 
 ApplyAdsb(tab, m, rx) ==
   LET e0 == IF m.addr \in DOMAIN tab THEN tab[m.addr] ELSE FreshEntry
-      e1 == [e0 EXCEPT !.live = m.t \div 2]
+      e1 == [e0 EXCEPT !.live = LiveOf(m.t)]
   IN  \* named deviation SurfaceWithoutVelocitySkipsPosition: a surface message whose movement field carries no speed or
       \* whose track is invalid is dropped before its position is looked at (m.skip)
       IF m.cls \notin {"air", "surf"} \/ m.skip THEN (m.addr :> e1) @@ tab
@@ -45,9 +45,9 @@ ApplyAdsb(tab, m, rx) ==
 ApplyCommB(tab, m) ==
   \* a reply older than what was already heard from the aircraft (Comm-B replies are processed after all ADS-B
   \* messages of the batch) must not make the aircraft look staler: live only moves forward
-  IF m.addr \in DOMAIN tab THEN (m.addr :> [tab[m.addr] EXCEPT !.live = Max(@, m.t \div 2)]) @@ tab ELSE tab
+  IF m.addr \in DOMAIN tab THEN (m.addr :> [tab[m.addr] EXCEPT !.live = Max(@, LiveOf(m.t))]) @@ tab ELSE tab
 
-Evict(tab, tnow) == [a \in {x \in DOMAIN tab : ~(tnow - 2 * tab[x].live > 120)} |-> tab[a]]
+Evict(tab, tnow) == [a \in {x \in DOMAIN tab : ~Evicted(tab[x].live, tnow)} |-> tab[a]]
 
 \* one process_raw call: ADS-B messages in order, then Comm-B messages in order, then eviction
 Process(tab, adsb, commb, tnow, rx) ==
